@@ -228,6 +228,9 @@ def handle : Handler := fun j a => do
             a := a.violationSig "C01:promoted-behind-a-frozen-member-outside-the-async-exception" s!"promoted {h} with {nm.executed}; {j.compress}"
           if (good.length : Int) < quorum && !asyncEscape then
             a := a.violationSig "C01:promotion-without-a-frozen-caught-up-quorum" s!"promoted {h}: frozen and contained = {good} of {active}, quorum {quorum}; {j.compress}"
+          -- C14: the chosen node is never the host the switch moves away from (whoever the recorded master is by now)
+          if sw.from_ != "" && h == sw.from_ then
+            a := a.violationSig "C14:promoted-the-host-the-switch-moves-away-from" s!"promoted {h}; {j.compress}"
           -- C19: never promoted while it carries relaxed settings or is still registered as optimising
           let reg := (jStrList s "opt_registry").toOption.getD []
           let flush := jIntOr ((((jOpt s "nodes").bind fun n => n.getArr?.toOption).getD #[]).toList.find? (fun n => jStrOr n "host" "" == h) |>.getD Json.null) "flush_log" 1
@@ -278,6 +281,16 @@ def handle : Handler := fun j a => do
         | none, _ => a := a.violationSig "C11:unconfirmed-old-master-not-marked-for-recovery" j.compress
         | _, _ => pure ()
   let promotedOk := obs.any fun o => o.s == "setWritable" && o.ok
+  -- C19: the speed-up phase has ended, with settings restored, before the freeze — nothing the procedure started may act
+  -- after it returned (20 s of settling time), and no server is left relaxed without being registered as optimising
+  let late := (jStrList j "late").toOption.getD []
+  if !late.isEmpty then
+    a := a.violationSig "C19:something-the-switchover-started-acts-after-it-ended" s!"{late} in {j.compress}"
+  let regAfter := (jStrList j "opt_registry_after").toOption.getD []
+  for nd in ((jOpt j "final").bind fun n => n.getArr?.toOption).getD #[] do
+    let h := jStrOr nd "host" ""
+    if jBoolOr nd "alive" false && (jIntOr nd "flush_log" 1 != 1 || jIntOr nd "sync_binlog" 1 != 1) && !regAfter.contains h then
+      a := a.violationSig "C19:server-left-relaxed-and-unregistered-after-the-switchover" s!"{h} in {j.compress}"
   a := a.note (obs.length > 2)
   a := a.tag (if promotedOk then "c01:promoted" else if emerge then "c01:splitbrain" else if obs.isEmpty then "c01:refused-at-once" else "c01:aborted")
   a := if obs.any (fun o => o.s == "setOnline" && sawLock2 && (obs.findIdx? (fun p => p == o)).getD 0 < (obs.findIdx? (fun p => p.s == "lockCheck" && p.n == 2)).getD 0) then a.tag "c01:catch-up-from-most-recent" else a
